@@ -365,7 +365,7 @@ class Gen:
             fam2 = {'params': [en, en]}
             fam1 = {'params': [en]}
             for cname, mk in containers:
-                pol = 'all-pairs' if cname == 'num' else 'some-pairs'
+                pol = 'all-pairs' if cname == 'num' else 'few'
                 body = ('  auto a0 = %s;\n  const auto from = static_cast<%s>(c.param(0));\n'
                         '  const auto to = static_cast<%s>(c.param(1));\n'
                         '  auto r = PhQ::Convert(a0, from, to);\n  c.out("r", r);\n  c.out("arg", a0);\n'
@@ -379,7 +379,7 @@ class Gen:
                 self.add('unit::ConvertInPlace<%s>(%s)' % (u, cname),
                          {'cls': 'unit:' + u, 'kind': 'convert-inplace', 'name': 'ConvertInPlace',
                           'args': [cname], 'ret': cname, 'self': False, 'family': fam2,
-                          'policy': 'some-pairs',
+                          'policy': 'ring' if cname == 'num' else 'few',
                           'enum': en}, body)
             # run-time dispatch tables
             for d in ('ToStandard', 'FromStandard'):
